@@ -11,6 +11,8 @@ use std::hash::{Hash, Hasher};
 // `format!` content and `log` output are irrelevant to every property decided here:
 // the macros are shadowed so that verbatim bodies containing them are accepted.
 macro_rules! format { ($($t:tt)*) => { verif_opaque_string() } }
+macro_rules! println { ($($t:tt)*) => { () } }
+macro_rules! print { ($($t:tt)*) => { () } }
 macro_rules! trace { ($($t:tt)*) => { () } }
 macro_rules! debug { ($($t:tt)*) => { () } }
 macro_rules! info { ($($t:tt)*) => { () } }
